@@ -1,10 +1,11 @@
 import PdeVerif.Json
 import PdeVerif.Model.ParLoop
+import PdeVerif.Model.SetterSeq
 import PdeVerif.Drv.C01
 import PdeVerif.Drv.C02
 namespace PdeVerif.Drv.C03
 open Lean PdeVerif PdeVerif.Stencil PdeVerif.BC
-open PdeVerif.Drv.C02 (arrFn parseCond)
+open PdeVerif.Drv.C02 (arrFn parseCond parseFaces allIdx getArr)
 open PdeVerif.Drv.C01 (parseCfg ranks applyAt outIdx Cfg)
 
 /-- {"cfg": {...as c01...}, "data": [padded input incl. components], "faces": [...as c02.ghost...]}
@@ -48,5 +49,30 @@ def writes (j : Json) : Except String Json := do
     Json.arr ((List.range n).map (fun c => match o c with | some v => jQ v | none => Json.null)).toArray
   pure (Json.arr #[enc o1, enc o2])
 
-def handlers : List (String × Handler) := [("c03.apply", apply), ("c03.writes", writes)]
+/-- model of the **compiled** ghost-cell setter (sequential loops on the live array, `chain`), same request as `c02.ghost2`:
+{"shape":[..], "rank":r, "dim":d, "data":[..], "faces":[{"axis","upper","normal","dx","cond"}]} ->
+{"a": full array after `BC.compiledSetterLog` (read through `BC.readLog`), "div0": flat indices computed by a division by
+zero, "stores": number of element stores executed} -/
+def seqghost (j : Json) : Except String Json := do
+  let shape ← fldNs j "shape"
+  let rank ← fldN j "rank"
+  let dim ← fldN j "dim"
+  let data ← getArr j "data"
+  let fshape := List.replicate rank dim ++ shape.map (· + 2)
+  let a0 : List Int → Rat := arrFn fshape data
+  let (faces, _) ← parseFaces j shape rank
+  let mut axes : List ((Face × Rat × Cond Rat) × (Face × Rat × Cond Rat)) := []
+  for ax in List.range shape.length do
+    let lo := faces.find? (fun fc => fc.1.axis == ax && fc.1.side == Side.lower)
+    let hi := faces.find? (fun fc => fc.1.axis == ax && fc.1.side == Side.upper)
+    match lo, hi with
+    | some l, some h => axes := axes ++ [(l, h)]
+    | _, _ => throw s!"axis {ax}: both sides are needed"
+  let log := compiledSetterLog dim axes a0
+  let all := allIdx fshape
+  let div0 := (all.zipIdx).filterMap (fun (p : List Int × Nat) =>
+    if faces.any (fun fc => fc.1.writes p.1 && divByZero fc.1 fc.2.1 fc.2.2 p.1) then some p.2 else none)
+  pure (Json.mkObj [("a", jQs (all.map (readLog log a0))), ("div0", toJson div0), ("stores", toJson log.length)])
+
+def handlers : List (String × Handler) := [("c03.apply", apply), ("c03.writes", writes), ("c03.seqghost", seqghost)]
 end PdeVerif.Drv.C03
